@@ -397,6 +397,9 @@ func (f *Fault) Write(p []byte) (int, error) {
 	return f.Conn.Write(p)
 }
 
+// WriteFailed: the injected write failure has been delivered to the writer.
+func (f *Fault) WriteFailed() bool { f.mu.Lock(); defer f.mu.Unlock(); return f.wfailed }
+
 func (f *Fault) Counts() (inBytes, writes int) {
 	f.mu.Lock()
 	defer f.mu.Unlock()
